@@ -77,7 +77,13 @@ type World struct {
 
 	// scenario data shared between generators and oracles
 	Cdp  *CdpPlan
+	Dex  *DexPlan
+	Lend *LendPlan
+	X    map[string]interface{} // scratch space for scenario/oracle code (typed by its owner)
 
+	Liq      *LiqTracker
+	Faucet   sdk.Coins // coins minted by the harness faucet (not through any protocol path)
+	OnBlock  []func(w *World)
 	LiqSeen  bool   // any liquidation / auction / ESM activity happened in this run (set by scenario code)
 	Panicked string // set when a Begin/EndBlock panicked (C15 universal oracle)
 
@@ -127,7 +133,7 @@ func mkActor(seed uint64, idx int, name string) *Actor {
 
 // NewWorld builds a fresh chain from genesis for cfg with nActors funded with ucmdx only. Scenario set-up follows.
 func NewWorld(cfg Config, nActors int) *World {
-	w := &World{Cfg: cfg, Unsolicited: map[string]sdk.Coins{}, Stats: NewStats(), S: map[string]interface{}{}}
+	w := &World{Cfg: cfg, Unsolicited: map[string]sdk.Coins{}, Stats: NewStats(), S: map[string]interface{}{}, X: map[string]interface{}{}}
 	w.DB = dbm.NewMemDB()
 	w.Enc = chain.MakeEncodingConfig()
 	w.TxCfg = w.Enc.TxConfig
@@ -254,6 +260,11 @@ func (w *World) beginBlock(height int64, t time.Time) {
 	}()
 	w.InBlock = true
 	w.Stats.Blocks++
+	if w.Panicked == "" {
+		for _, f := range w.OnBlock {
+			f(w)
+		}
+	}
 }
 
 // EndBlockAndBegin finishes the current block, commits, and opens the next one gap seconds later.
@@ -370,6 +381,7 @@ func (w *World) DeliverMsgs(signer *Actor, gasLimit uint64, msgs ...sdk.Msg) TxR
 // Fund mints coins to addr through the mint module (set-up and faucet only; recorded as an admin event when used in a run).
 func (w *World) Fund(addr sdk.AccAddress, coins sdk.Coins) {
 	ctx := w.Ctx()
+	w.Faucet = w.Faucet.Add(coins...)
 	if err := w.App.BankKeeper.MintCoins(ctx, minttypes.ModuleName, coins); err != nil {
 		panic(err)
 	}
@@ -410,4 +422,17 @@ func sortedKeys[V any](m map[string]V) []string {
 	}
 	sort.Strings(ks)
 	return ks
+}
+
+// touchModuleAccounts creates every module account, as on a chain that has been running for a while.
+// (A plain bank send to a module address that has no account yet creates a base account there; see DESIGN.md findings.)
+func (w *World) touchModuleAccounts() {
+	if w.Cfg.K("fresh_module_accounts") != 0 {
+		return
+	}
+	ctx := w.Ctx()
+	perms := w.App.ModuleAccountsPermissions()
+	for _, name := range sortedKeys(perms) {
+		w.App.AccountKeeper.GetModuleAccount(ctx, name)
+	}
 }
